@@ -255,11 +255,18 @@ class Gen:
     return K.Model(x_in, x), 1
 
   def m_dense_lead(self):
-    """Dense(1) on (C, 1): every size assertion passes, np.max takes the leading axis"""
+    """Dense(1) on (C, 1) / (1, C, 1) / (C, 1, 1): every size assertion passes and the large
+    dimension is NOT the feature axis (the kernel is 1x1, applied at C positions); the unrepaired
+    code took np.max for both sizes (fix fff3a88)"""
     K, Q = self.K, self.Q
-    x_in, x = self.head((self.ri(2, 8), 1), with_act=True)
-    x = Q.QDense(1, kernel_quantizer=self.kq(), bias_quantizer="quantized_bits(4,0,1)")(x)
-    self.run.count("gen_dense_leading_axis")
+    c = self.ri(2, 8)
+    shape = self.ch([(c, 1), (c, 1), (1, c, 1), (c, 1, 1)])
+    x_in, x = self.head(shape, with_act=True)
+    if self.p(0.75):
+      x = Q.QDense(1, kernel_quantizer=self.kq(), bias_quantizer="quantized_bits(4,0,1)")(x)
+    else:
+      x = K.layers.Dense(1)(x)
+    self.run.count("gen_dense_leading_axis_rank%d" % len(shape))
     return K.Model(x_in, x), 1
 
   def m_pool(self):
@@ -278,9 +285,28 @@ class Gen:
       x = self.Q.QGlobalAveragePooling2D(average_quantizer="quantized_bits(6,0,1)")(x)
       self.run.count("gen_qglobalavgpool")
     else:
-      h, w, _ = [int(d) for d in x.shape[1:]]
-      x = self.Q.QAveragePooling2D(self.ri(1, min(3, h, w)), average_quantizer="quantized_bits(6,0,1)")(x)
-      self.run.count("gen_qavgpool")
+      x = self.qavgpool(x)
+    return K.Model(x_in, x), 1
+
+  def qavgpool(self, x):
+    """QAveragePooling2D: counted like AveragePooling2D since fix a151cef (it used to be in no
+    branch of get_operation_count: 0)"""
+    h, w, _ = [int(d) for d in x.shape[1:]]
+    pad = self.ch(["valid", "same"])
+    ph = self.ri(1, min(3, h))
+    pw = ph if self.p(0.6) and ph <= w else self.ri(1, min(3, w))
+    strides = None if self.p(0.5) else (self.ri(1, 3), self.ri(1, 3))
+    self.run.count("gen_qavgpool_%s" % pad)
+    return self.Q.QAveragePooling2D((ph, pw), strides=strides, padding=pad,
+                                    average_quantizer=self.ch(["quantized_bits(6,0,1)", "quantized_bits(8,1,1)"]))(x)
+
+  def m_qpool(self):
+    K = self.K
+    shape = (self.ri(4, 12), self.ri(4, 12), self.ri(1, 8))
+    x_in, x = self.head(shape)
+    if self.p(0.4):
+      x = self.conv2d(x)
+    x = self.qavgpool(x)
     return K.Model(x_in, x), 1
 
   def m_merge(self):
@@ -314,7 +340,8 @@ class Gen:
     return K.Model(x_in, x), 1
 
   def m_sep(self):
-    """QSeparableConv: estimate.py knows it, qtools does not"""
+    """QSeparableConv: estimate.py knows it (1x1 stage under-counted: recorded finding), qtools
+    does not support it ("cannot parse", operation_count 0: recorded finding)"""
     K, Q = self.K, self.Q
     if self.p(0.5):
       shape = (self.ri(4, 10), self.ri(4, 10), self.ri(1, 6))
@@ -487,7 +514,8 @@ def spec_line(kind, layer, in_shape):
   elif kind == "globalavgpool":
     base.update(h=in_shape[0], w=in_shape[1], ci=in_shape[2])
   elif kind == "dense":
-    base.update(ci=in_shape[-1], co=cfg["units"])
+    # h = number of positions of the leading axes the kernel is applied at
+    base.update(h=_prod(in_shape[:-1]), ci=in_shape[-1], co=cfg["units"])
   return base
 
 
@@ -635,7 +663,8 @@ def run(run: core.Run, tier: str):
   n_models = 150 if tier == "quick" else 900
   run.extra["rule"] = (
       "random Keras/QKeras models (legacy tf_keras): Conv2D/QConv2D, Conv1D/QConv1D, (Q)DepthwiseConv2D, "
-      "(Q)Dense, AveragePooling2D, (Q)GlobalAveragePooling2D, merge layers, MaxPooling/UpSampling/Flatten/"
+      "(Q)Dense (also Dense(1) on (C,1)/(1,C,1)/(C,1,1)), (Q)AveragePooling2D, (Q)GlobalAveragePooling2D, "
+      "QSeparableConv1D/2D, merge layers, MaxPooling/UpSampling/Flatten/"
       "BatchNormalization/QActivation fillers; kernel 1..5, strides 1..3, dilation 1..3, same/valid/causal, "
       "channels 1..8, spatial 4..12, groups, depth_multiplier, 7 kernel quantizers x 6 activation "
       "quantizers; every model x 3 of 12 memory placements (weights dram/sram/fixed x activations "
@@ -657,7 +686,7 @@ def run(run: core.Run, tier: str):
   builders = [("conv2d", gen.m_conv2d, 30), ("conv1d", gen.m_conv1d, 14), ("dense", gen.m_dense, 10),
               ("dense_se", gen.m_dense_se, 3), ("dense_lead", gen.m_dense_lead, 2), ("pool", gen.m_pool, 14),
               ("merge", gen.m_merge, 10), ("grouped", gen.m_grouped, 6), ("dw_mult", gen.m_dw_mult, 5),
-              ("sep", gen.m_sep, 6)]
+              ("sep", gen.m_sep, 6), ("qpool", gen.m_qpool, 5)]
   weights = np.array([b[2] for b in builders], dtype=float)
   weights /= weights.sum()
 
@@ -902,8 +931,8 @@ def run(run: core.Run, tier: str):
       run.disagree("conv_output_length", {"spec": sl, "keras": kout, "forward": d["out"]}, kout, o["out"])
     # Lean loop-nest cardinality vs the Python loop nest over the real layer
     if kind == "dense" and d.get("lead", 1) > 1:
-      run.count("spec_dense_leading_axes_skipped")   # the index model covers (batch, 1.., n_in) only
-    elif o["mac"] != brute:
+      run.count("spec_dense_leading_axes")
+    if o["mac"] != brute:
       run.disagree("mac_spec", {"spec": sl, "class": cls}, brute, o["mac"])
     # measured real-tap count (all-ones twin)
     if emp is not None:
